@@ -43,7 +43,12 @@ SingleAssigns ==
 PairAssigns ==
   { <<[p |-> <<"p_q">>, v |-> Leaf("v1")], [p |-> <<"p-q">>, v |-> Leaf("v2")]>>,
     <<[p |-> <<"m", "z">>, v |-> Leaf("v1")], [p |-> <<"m", "x_y">>, v |-> Leaf("v2")]>>,
-    <<[p |-> <<"m">>, v |-> <<[p |-> <<>>, v |-> "MAP"]>>], [p |-> <<"m", "x-y">>, v |-> Leaf("v1")]>> }
+    <<[p |-> <<"m">>, v |-> <<[p |-> <<>>, v |-> "MAP"]>>], [p |-> <<"m", "x-y">>, v |-> Leaf("v1")]>>,
+    \* several keys in one call, a key that creates new sections first
+    <<[p |-> <<"m", "n", "w_v">>, v |-> Leaf("v1")], [p |-> <<"p_q">>, v |-> Leaf("v2")], [p |-> <<"m", "z">>, v |-> Leaf("v1")]>>,
+    <<[p |-> <<"m", "x_y">>, v |-> Leaf("v2")], [p |-> <<"p-q">>, v |-> Leaf("v1")]>>,
+    <<[p |-> <<"p_q">>, v |-> Leaf("v1")], [p |-> <<"m", "n">>, v |-> <<[p |-> <<>>, v |-> "MAP"], [p |-> <<"w_v">>, v |-> "v2"]>>],
+      [p |-> <<"m", "z">>, v |-> Leaf("v2")]>> }
 
 AssignSeqs == {<<a>> : a \in SingleAssigns} \cup PairAssigns
 
